@@ -404,7 +404,7 @@ func (g *caGen) genLeafUniverse() {
 				}
 			}
 			for k := r.Intn(5) - 2; k > 0; k-- {
-				e.keys = append(e.keys, [2]string{[]string{"k", "j", "i"}[k%3], []string{"1", "2", "x/y"}[r.Intn(3)]})
+				e.keys = append(e.keys, [2]string{[]string{"k", "j", "i"}[k%3], []string{"1", "2", "x/y", "10"}[r.Intn(4)]})
 			}
 			es = append(es, e)
 		}
@@ -419,6 +419,21 @@ func (g *caGen) genLeafUniverse() {
 			es[0].name = "e"
 		}
 		g.leaves = append(g.leaves, caLeaf{origin: origin, elems: es})
+		if r.Intn(4) == 0 {
+			// a sibling whose last element (or key value) merely *starts with* this one's text
+			// (interface eth1 / eth10): distinct leaves that string-based shortcuts confuse
+			sib := make([]gElem, len(es))
+			copy(sib, es)
+			last := sib[len(sib)-1]
+			if len(last.keys) > 0 {
+				last.keys = append([][2]string(nil), last.keys...)
+				last.keys[len(last.keys)-1][1] += "0"
+			} else if last.name != "" && last.name != "meta" {
+				last.name += "1"
+			}
+			sib[len(sib)-1] = last
+			g.leaves = append(g.leaves, caLeaf{origin: origin, elems: sib})
+		}
 	}
 }
 
